@@ -13,6 +13,7 @@ import (
 
 	"github.com/bufbuild/verifharness/internal/reg"
 
+	_ "github.com/bufbuild/verifharness/internal/authmodel"
 	_ "github.com/bufbuild/verifharness/internal/cachemodel"
 	_ "github.com/bufbuild/verifharness/internal/faults"
 	_ "github.com/bufbuild/verifharness/internal/pathescape"
